@@ -8,14 +8,30 @@
        struct = per function, sorted by output names: [outs; params; defaults; bound; names of the fused user functions]
    spec_ok is written from the property text; it only relates the observations of the original and of the
    rewritten pipeline to each other (never calls `run` / `nrun` / `apply_op`). *)
-From Verif Require Export Base.Prelude Base.StrOrd Base.StrUtil Base.Graph Model.Pipe Model.Rewrite Corr.PipeObs.
+From Verif Require Export Base.Prelude Base.StrOrd Base.StrUtil Base.Graph Model.Pipe Model.Rewrite Model.Alias Corr.PipeObs.
 From Verif Require Export Corr.Run_C10Map.
 
 Record rcall := { c_o0 : str; c_kw0 : alist; c_o1 : str; c_kw1 : kwargs }.
 
+(* aliasing probes: one rewrite, then one mutation of one side, the state of the other side around both *)
+Inductive aop :=
+| ACopy | APickle | AJoin (q : list Alias.fdesc) | ASimplify (o : str) (c : bool) | ASplit (o : str)   (* new pipeline *)
+| ARename (r : alist) | AScope (sc : option str) (isel osel : option (list str)) (excl : list str)
+| ANest (names : list str) (new_out : option (list str)).                                              (* in place *)
+Inductive amut :=
+| MDefaults (d : alist)               (* X.update_defaults(d) *)
+| MBound (o : str) (b : alist)        (* X[o].update_bound(b) *)
+| MRenames (r : alist)                (* X.update_renames(r) *)
+| MDrop (o : str).                    (* X.drop(output_name=o) *)
+Definition fd (n : str) (o : list str) (ps : list (str * str)) (sd df b : alist) (c : bool) : Alias.fdesc :=
+  {| Alias.d_name := n; Alias.d_outs := o; Alias.d_params := ps; Alias.d_sigd := sd; Alias.d_defs := df;
+     Alias.d_bound := b; Alias.d_cached := c |}.
+
 Inductive case :=
 | CRewrite (p : pipeline) (ops : list op) (calls : list rcall)
-| CMap (c : mcase).
+| CMap (c : mcase)
+| CAlias (ds : list Alias.fdesc) (rw : aop) (mutate_original : bool) (m : amut)
+         (callA callB : str * alist).     (* a request for the untouched side A / for the rewritten side B *)
 
 Definition body := Sym.body.
 Definition pick := Sym.pick.
@@ -64,6 +80,69 @@ Definition run_orig (p : pipeline) (c : rcall) : result str * list call :=
   let r := Pipe.run body pick p (c_o0 c) (c_kw0 c) false in
   (match fst r with Ok (Value v) => Ok v | Ok (Full _) => Err OtherError | Err e => Err e end, snd r).
 
+(* ---- aliasing probes on the heap model ---- *)
+Definition no_spec_ren (_ : alist) (m : str) : str := m.      (* the structural pipelines carry no MapSpec *)
+Definition sx_view (v : Alias.fview) : sx :=
+  let nd := Alias.v_node v in
+  let f := nf nd in
+  SL [sx_strs (outs f); sx_strs (pnames f); sx_sorted_dict (dflt f); sx_sorted_dict (bound f);
+      sx_sorted_dict (filter (fun kv => negb (str_eqb (fst kv) (snd kv))) (Alias.v_renames v));
+      SS (match Alias.v_spec v with Some m => m | None => s "None" end);
+      sx_strs (sort_strs (prim_names nd))].
+Definition sx_state (h : Alias.heap) (lp : Alias.loc) (call : str * alist) : option sx :=
+  match Alias.pobs h lp, Alias.reify h lp with
+  | Some vs, Some p =>
+      Some (SL [SL (map sx_view (sort (fun a b => strs_ltb (outs (nf (Alias.v_node a))) (outs (nf (Alias.v_node b)))) vs));
+                sx_of_result SS (fst (nrun body pick p (fst call) (dotted (snd call))))])
+  | _, _ => None
+  end.
+Definition hop_of (rw : aop) (p : Alias.loc) (q : Alias.loc) : Alias.hop :=
+  match rw with
+  | ACopy => Alias.HCopy p | APickle => Alias.HPickle p | AJoin _ => Alias.HJoin p q
+  | ASimplify o c => Alias.HSimplify p o c | ASplit o => Alias.HSplit p o
+  | ARename r => Alias.HUpdateRenames p r | AScope sc i o e => Alias.HUpdateScope p sc i o e
+  | ANest names new_out => Alias.HNest p names new_out
+  end.
+Definition hop_of_mut (m : amut) (p : Alias.loc) : Alias.hop :=
+  match m with
+  | MDefaults d => Alias.HUpdateDefaults p d | MBound o b => Alias.HUpdateBound p o b
+  | MRenames r => Alias.HUpdateRenames p r | MDrop o => Alias.HDrop p o
+  end.
+Definition run_alias (ds : list Alias.fdesc) (rw : aop) (side : bool) (m : amut) (callA callB : str * alist) : sx :=
+  let res :=
+    match Alias.build [] ds with
+    | None => None
+    | Some (h1, P) =>
+        (* the second operand of a join is built first *)
+        match (match rw with AJoin qd => Alias.build h1 qd | _ => Some (h1, O) end) with
+        | None => None
+        | Some (h1', Q) =>
+            let newret := match Alias.target (hop_of rw P Q) with None => true | Some _ => false end in
+            (* for an in-place rewrite the untouched side is a copy taken before *)
+            match (if newret then Some (h1', P) else Alias.pipeline_copy h1' P) with
+            | None => None
+            | Some (h2, A) =>
+                match sx_state h2 A callA, Alias.step no_spec_ren h2 (hop_of rw P Q) with
+                | Some a0, Some (h3, r) =>
+                    let B := match r with Some b => b | None => P end in
+                    let X := if side then A else B in
+                    let Y := if side then B else A in
+                    let callY := if side then callB else callA in
+                    match sx_state h3 A callA, sx_state h3 Y callY, Alias.step no_spec_ren h3 (hop_of_mut m X) with
+                    | Some a1, Some y0, Some (h4, _) =>
+                        match sx_state h4 Y callY with
+                        | Some y1 => Some (SL [sx_ok; a0; a1; y0; y1])
+                        | None => None
+                        end
+                    | _, _, _ => None
+                    end
+                | _, _ => None
+                end
+            end
+        end
+    end in
+  match res with Some x => x | None => bad_case end.
+
 Definition run (c : case) : sx :=
   match c with
   | CRewrite p ops calls =>
@@ -77,6 +156,7 @@ Definition run (c : case) : sx :=
                 SL (map (fun c => SL (sx_res (run_orig p c) ++ sx_res (nrun body pick p' (c_o1 c) (c_kw1 c)))) calls)]
         end
   | CMap mc => run_map mc
+  | CAlias ds rw side m callA callB => run_alias ds rw side m callA callB
   end.
 
 (* ------------------------------------------------------------------ the executable statement *)
@@ -309,4 +389,11 @@ Definition spec_ok (c : case) (obs : sx) : bool :=
         | _ => false
         end
   | CMap mc => spec_map mc obs
+  | CAlias _ _ _ _ _ _ =>
+      (* the untouched side is the same before and after the rewrite; the side that is not mutated is the same
+         before and after the mutation of the other one *)
+      match obs with
+      | SL [status; a0; a1; y0; y1] => negb (sx_eqb status sx_ok) || (sx_eqb a0 a1 && sx_eqb y0 y1)
+      | _ => false
+      end
   end.
